@@ -353,7 +353,7 @@ pub fn derive_block(input: TokenStream) -> TokenStream {
                 /// output streams.
                 ///
                 /// This function is automatically generated by a macro.
-                pub fn new #(<#other_into_types>),*(#(#in_name_types,)*#(#other_name_types),*) -> (Self #(,#out_stream_type)*) {
+                pub fn new <#(#other_into_types),*>(#(#in_name_types,)*#(#other_name_types),*) -> (Self #(,#out_stream_type)*) {
                     #(let #out_names = #out_factory;)*
                     (Self {
                     #(#in_names,)*
